@@ -8,7 +8,7 @@ from .rt import _Return, _Break, _Continue
 from .values import *
 from .ops import DictView, fact_key
 
-_ABSENT = object()
+_ABSENT = ABSENT
 
 
 # attributes a class object has through its metaclass chain ending in `type` (and `object`)
@@ -225,6 +225,12 @@ class AccessMixin:
                 return (obj.func if isinstance(obj, BoundMethod) else obj).name
             if name == "__func__" and isinstance(obj, BoundMethod):
                 return obj.func
+            if name == "__func__" and isinstance(obj, FuncVal) and obj.kind in ("staticmethod", "classmethod"):
+                # (read off the staticmethod / classmethod object in a class body: the function it wraps)
+                f2 = FuncVal(obj.name, obj.node, obj.module, kind="function", cls=obj.cls, closure=obj.closure)
+                f2.defaults, f2.kw_defaults = getattr(obj, "defaults", []), getattr(obj, "kw_defaults", [])
+                f2.qualname = obj.qualname
+                return f2
             return self.attr_error(obj, name, node, frame)
         m = self.method_of(obj, name, node, frame)
         if m is not None:
